@@ -578,15 +578,6 @@ O("C01.fill_yly_ymd_all_m", ["C01", "C09"], "h_C01d.c", "h_C01_fill_yly_ymd_all_
 O("C01.fill_yly_yd_all", ["C01"], "h_C01d.c", "h_C01_fill_yly_yd_all",
   "fill_yly_yd_all: for every year and weekday mask exactly the days of the year on a listed weekday are selected",
   ["fill_yly_yd_all", "inc_md", "inc_wd"], unwind=368, **ED)
-O("C10.pull.a3", ["C10", "C09"], "h_C10.c", "h_C10_pull",
-  "_ical_pull on every chunk of 1..4 bytes over the three byte classes the line chopper distinguishes (line feed, blank, other), every stash fill level and marker state: no read outside the pushed chunk, no write outside the stash, indices stay in range, every line handed on is NUL-terminated inside the stash",
-  ["_ical_pull", "_ical_push"], dfcc=True, replace=["_ical_proc", "esccpy", "memchr"],
-  replace_status={"_ical_proc": "trusted (not discharged): the line processor consumes the stash line", "esccpy": "discharged by C10.esccpy", "memchr": "trusted libc contract"},
-  kind="bounded", bound="chunk length <= 4 bytes over a 3-letter alphabet, <= 3 lines per pull",
-  defines=["-DSTUB_PROC", "-DBUFZ=4", "-DALPHA3"], cbmc_flags=["--unwindset", "_ical_pull.0:6,_ical_pull.1:5,h_C10_pull.0:6"], unwind=12,
-  solver=["minisat", "kissat", "cadical"], mem_gb=28, timeout={"quick": 1500, "thorough": 3600}, tiers=["thorough"], replay=False, replay_note="harness uses nondet buffer bytes",
-  assumptions=["_ical_proc replaced by its assumed contract (consumes the stash line, result arbitrary, at most 3 lines per pull); its precondition (NUL-terminated line inside the stash) is checked at every call site",
-               "memchr by contract (CBMC has no model): result NULL or a pointer into [s, s+n) to a byte equal to c"])
 O("C17.snarf_shift", ["C17"], "h_C09p.c", "h_C17_snarf_shift",
   "snarf_shift: SHIFT=N encodes N calendar days, SHIFT=NB encodes N business days with the direction as written - for every N in -366..366, 0B and -0B included",
   ["snarf_shift", "echs_shift_dvalue", "echs_shift_bvalue", "echs_shift_neg_p", "echs_shift_bday_p"], defines=['-DRRKEY="BYHOUR"', "-DRRK=1"],
